@@ -81,6 +81,41 @@ def _exc(e: Exception) -> List[Any]:
     return ["raise", type(e).__name__]
 
 
+class Hang(Exception):
+    """a call of the implementation did not come back within the time limit"""
+
+
+class time_limit:
+    """SIGALRM based limit for calls into the implementation (a mutated tree may not terminate, e.g. Referable.__repr__
+    on a parent cycle).  Only in the main thread of a process; elsewhere it is a no-op."""
+
+    def __init__(self, seconds: float):
+        self.seconds = seconds
+        self.armed = False
+
+    def __enter__(self):
+        import signal
+        import threading
+        if threading.current_thread() is threading.main_thread():
+            def onalarm(signum, frame):
+                raise Hang()
+            self.old = signal.signal(signal.SIGALRM, onalarm)
+            signal.setitimer(signal.ITIMER_REAL, self.seconds)
+            self.armed = True
+        return self
+
+    def __exit__(self, *exc):
+        import signal
+        if self.armed:
+            signal.setitimer(signal.ITIMER_REAL, 0)
+            signal.signal(signal.SIGALRM, self.old)
+        return False
+
+
+INSERTING = {"add": -1, "append": -1, "nsAdd": -1, "insert": 4, "setItem": 4}
+INSERTING_MANY = {"setSlice": -1, "extend": -1, "setValue": -1}
+
+
 class World:
     """The real objects of one history."""
 
@@ -182,6 +217,33 @@ class World:
 
     def sets(self, n):
         return self.nss[n].namespace_element_sets
+
+    def builds_cycle(self, op: List[Any]) -> bool:
+        """would `op` put a namespace element into itself or into one of its descendants?  (no namespace history; the
+        SDK's __repr__ does not terminate on such a structure)"""
+        k = op[0]
+        if k in INSERTING:
+            es = [op[INSERTING[k]]]
+        elif k in INSERTING_MANY:
+            es = list(op[INSERTING_MANY[k]])
+        else:
+            return False
+        for e in es:
+            if not (0 <= e < len(self.elems)) or not (0 <= op[1] < len(self.nss)):
+                continue
+            el = self.elems[e]
+            if id(el) not in self.n_of:
+                continue
+            anc = self.nss[op[1]]
+            for _ in range(200):
+                if anc is None:
+                    break
+                if anc is el:
+                    return True
+                anc = getattr(anc, "parent", None)
+            else:
+                return True
+        return False
 
     def live_arg(self) -> List[Any]:
         """the reachable namespaces with, per getter (get_referable, get_qualifier_by_type, get_extension_by_name):
@@ -598,21 +660,25 @@ def run_history(rng: random.Random, length: int, on_step=None) -> Tuple[List[Lis
     orc = Oracle(g.w)
     hist: List[List[Any]] = []
     todo = g.setup() + [g.ns_op() for _ in range(rng.randint(2, 4))]
-    for i in range(length + len(todo)):
-        op = todo[i] if i < len(todo) else g.next_op()
-        hist.append(op)
-        before = orc.snapshot() if op[0] in SINGLE_OPS else None
-        r = g.w.step(op)
-        g.note(op, r)
-        lines.append(op)
-        outs.append(r)
-        v = ["view", g.w.live_arg(), PROBES]
-        lines.append(v)
-        outs.append(g.w.step(v))
+    try:
+        with time_limit(60):
+            for i in range(length + len(todo)):
+                op = todo[i] if i < len(todo) else g.next_op()
+                hist.append(op)
+                before = orc.snapshot() if op[0] in SINGLE_OPS else None
+                r = g.w.step(op)
+                g.note(op, r)
+                v = ["view", g.w.live_arg(), PROBES]
+                vo = g.w.step(v)
+                lines += [op, v]
+                outs += [r, vo]
+                if fail is None:
+                    fail = orc.check(op, r, before, list(hist))
+                if on_step:
+                    on_step(op, r)
+    except Hang:
         if fail is None:
-            fail = orc.check(op, r, before, list(hist))
-        if on_step:
-            on_step(op, r)
+            fail = C.Failing("ns:hang", "a call of the namespace API did not return within the time limit", list(hist))
     return lines, outs, fail
 
 
@@ -744,18 +810,26 @@ def check_history(hist: List[List[Any]]) -> Optional[C.Failing]:
     w = World()
     orc = Oracle(w)
     done: List[List[Any]] = []
-    for op in hist:
-        if op[0] == "view":
-            continue
-        done.append(op)
-        before = orc.snapshot() if op[0] in SINGLE_OPS else None
-        try:
-            r = w.step(op)
-        except (IndexError, KeyError, AttributeError, RuntimeError, TypeError):
-            return None      # malformed after minimisation (a handle no longer exists)
-        f = orc.check(op, r, before, list(done))
-        if f is not None:
-            return f
+    try:
+        with time_limit(20):
+            for op in hist:
+                if op[0] == "view":
+                    continue
+                done.append(op)
+                try:
+                    if w.builds_cycle(op):
+                        return None
+                    before = orc.snapshot() if op[0] in SINGLE_OPS else None
+                    r = w.step(op)
+                except (IndexError, KeyError, AttributeError, RuntimeError, TypeError):
+                    return None      # malformed after minimisation (a handle no longer exists)
+                f = orc.check(op, r, before, list(done))
+                if f is not None:
+                    return f
+    except Hang:
+        return C.Failing("ns:hang", "a call of the namespace API did not return within 20 s", list(done))
+    except RecursionError:
+        return None
     return None
 
 
@@ -763,6 +837,8 @@ def minimise(f: C.Failing) -> C.Failing:
     def fails(ops):
         g = check_history(ops)
         return g is not None and g.sig == f.sig
+    if f.sig == "ns:hang":
+        return f
     case = [op for op in f.case if op[0] != "view"]
     if fails(case):
         small = C.ddmin(case, fails, max_tests=300)
